@@ -514,7 +514,7 @@ class Ctx:
             n = self._replays
         if n > 8:
             return
-        d = os.path.join(ROOT, 'replays', self.pid, '%s-s%d-%03d-%s' % (
+        d = os.path.join(ROOT, 'replays' if REPO == '/repo' else '.work/scratch-replays', self.pid, '%s-s%d-%03d-%s' % (
             self.tier, self.seed, n, re.sub(r'[^A-Za-z0-9_.-]+', '_', key)[:60]))
         shutil.rmtree(d, ignore_errors=True)
         os.makedirs(d, exist_ok=True)
@@ -552,8 +552,11 @@ class Ctx:
             'level': self.level, 'coverage': cov, 'assumptions': self.assumptions,
             'wall_s': round(time.time() - self.t0, 2), 'violations': self.violations,
         }
-        os.makedirs(os.path.join(ROOT, 'evidence'), exist_ok=True)
-        p = os.path.join(ROOT, 'evidence', self.pid + '.json')
+        # runs against a scratch copy of the repository (mutant self-tests) must not
+        # overwrite the evidence of the real tree
+        evdir = os.path.join(ROOT, 'evidence') if REPO == '/repo' else os.path.join(WORKROOT, 'scratch-evidence')
+        os.makedirs(evdir, exist_ok=True)
+        p = os.path.join(evdir, self.pid + '.json')
         with open(p + '.tmp', 'w') as f:
             json.dump(ev, f, indent=1, default=repr)
         os.replace(p + '.tmp', p)
